@@ -44,7 +44,7 @@ def actOf? (j : Json) : Option Act := do
   | _ => none
 
 def raiseStr : RaiseKind → String
-  | .unknownError => "unknownError" | .gone => "gone" | .fatal => "fatal" | .garbage => "garbage"
+  | .unknownError => "unknownError" | .fatal => "fatal" | .garbage => "garbage"
 
 def outJ : Out → Json
   | .item k rv => .arr #[.str "item", .num (k : Int), .num (rv : Int)]
